@@ -86,20 +86,22 @@ def inferCategoryMapper (catsInt catsStr : Option Nat) (x : ITy) : Res :=
         | _ => .err .valueErr        -- `(elem_type,) = {int64, str_} - {dtype}` has two elements
     | _, _ => .err .inference
 
+/-- Which imputation list applies to element type `e` (`none` = one of the three InferenceErrors:
+    a list for the other element type is also given / no matching element type / list missing). -/
+def imputerChoice (e : Elem) (impF impI : Option Nat) : Option Nat :=
+  match e with
+  | .i64 => if impF.isSome then none else impI
+  | .f32 => if impI.isSome then none else impF
+  | _ => none
+
 /-- `imputed_value_floats`, `imputed_value_int64s`: lengths. -/
 def inferImputer (impF impI : Option Nat) (x : ITy) : Res :=
   match ranked x with
   | none => .ok [none]
   | some (e, ds) =>
-    let chosen : Option (Option Nat) :=
-      match e with
-      | .i64 => if impF.isSome then none else some impI
-      | .f32 => if impI.isSome then none else some impF
-      | _ => none
-    match chosen with
+    match imputerChoice e impF impI with
     | none => .err .inference
-    | some none => .err .inference
-    | some (some len) => if featureMismatch len (some ds) then .err .inference else .ok [x]
+    | some len => if featureMismatch len (some ds) then .err .inference else .ok [x]
 
 def inferLinearRegressor (_targets : Nat) (x : ITy) : Res :=
   match ranked x with
